@@ -25,7 +25,7 @@ ASSUMPTIONS = ['comprehension targets and except-clause names are excluded (prop
 
 NAMES = ('a', 'b')
 SIMPLE = ('assign', 'aug', 'read', 'del', 'global', 'nonlocal', 'import', 'importas', 'fromimport', 'withas', 'exceptas',
-          'for', 'attr', 'sub', 'walrus', 'annassign', 'anndecl', 'compt', 'compr', 'compself', 'tuple', 'slice', 'tupidx', 'slicestore', 'fspec')
+          'for', 'attr', 'sub', 'walrus', 'annassign', 'anndecl', 'compt', 'compr', 'compself', 'tuple', 'slice', 'tupidx', 'slicestore', 'fspec', 'subcomp', 'delsubcomp')
 PARAMS = ('pos', 'posonly', 'vararg', 'kwonly', 'kwarg', 'default', 'kwdefault', 'anno', 'deco', 'none')
 _S = {'tier': 'quick'}
 MAXN = {'quick': 3, 'thorough': 4}
@@ -66,7 +66,7 @@ def blocks(n, d):
         yield (s,) + rest
 
 
-ROUND2_KINDS = ('slice', 'tupidx', 'slicestore', 'fspec')
+ROUND2_KINDS = ('slice', 'tupidx', 'slicestore', 'fspec', 'subcomp', 'delsubcomp')
 
 
 def _uses_round2(b):
@@ -137,6 +137,10 @@ def emit(body, ind, lines, ctr):
       lines.append(pad + '%s.attr = %d' % (n, c))
     elif k == 'sub':
       lines.append(pad + '%s[0] = %d' % (n, c))
+    elif k == 'subcomp':
+      lines.append(pad + '%s[p + 1] = %d' % (n, c))
+    elif k == 'delsubcomp':
+      lines.append(pad + 'del %s[p + 1]' % n)
     elif k == 'fspec':
       lines.append(pad + "u(f'{p:>{%s}}')" % n)
     elif k == 'slice':
